@@ -33,7 +33,7 @@ MfName = IT.fstr_fun("mf_{}", [L.Int])
 MvQ = IT.fstr_fun("mv_{}", [StrSort])
 MfQ = IT.fstr_fun("mf_{}", [StrSort])
 
-SumEta = L.prefix_fun("SumEta", [LInt.sort, Asg], L.Int, lambda l, s: z3.IntVal(0), lambda l, s, k, prev: prev + asg(s, EtaName(LInt.at(l, k))))
+SumEta = IT.named_sum("Eta", EtaName)
 
 
 def sum_eta(l, s):
@@ -78,22 +78,6 @@ L.TH.axiom(
         z3.Or(LITerm.len(_R) != LLInt.len(_LL), z3.And(0 <= _wj, _wj < LITerm.len(_R), iv(LITerm.at(_R, _wj), _ws) != sum_eta(LLInt.at(_LL, _wj), _ws))),
     ),
     "SumsOK.intro",
-)
-
-# lemma (induction, lemmas/zlemmas.py): a Plus over the eta symbols of a key list is its SumEta
-_tl = z3.Const("_sc_tl", LITerm.sort)
-_kl = z3.Const("_sc_kl", LInt.sort)
-_n = z3.Int("_sc_n")
-sumw = z3.Function("SumCong!w", LITerm.sort, LInt.sort, Asg, L.Int, L.Int)
-_w = sumw(_tl, _kl, _s, _n)
-L.TH.axiom(
-    [_tl, _kl, _s, _n],
-    [IT.SumIV(_tl, _s, _n), SumEta(_kl, _s, _n)],
-    z3.Implies(
-        z3.And(0 <= _n, IT.SumIV(_tl, _s, _n) != SumEta(_kl, _s, _n)),
-        z3.And(0 <= _w, _w < _n, iv(LITerm.at(_tl, _w), _s) != asg(_s, EtaName(LInt.at(_kl, _w)))),
-    ),
-    "lemma.SumCong",
 )
 
 DictLL = TDict(TList(TList(TInt)))
